@@ -8,7 +8,8 @@
  * -s free|parent-first|child-first fixes the interleaving of the caller and the forked child at the two
  * extremes the model allows: parent-first parks the child at birth until the caller enters its read on
  * the sync pipe; child-first parks the caller when fork returns until the child exec'ed / exited.
- * -f opens PATH on descriptor FD for PROG (not close-on-exec).  At the markers spawn:begin and
+ * -f opens PATH on descriptor FD for PROG (not close-on-exec); the tracer keeps the same open file
+ * description and logs its file offset at the end ({"ev":"rawpos","fd":40,"pos":3}).  At the markers spawn:begin and
  * returned:* the descriptor table of the marking task is logged:
  *   {"ev":"fds","task":1,"at":"begin","pid":..,"pgrp":..,"fds":[{"fd":0,"link":"..","acc":0,"cloexec":0},..],"cwd":".."}
  *
@@ -537,25 +538,30 @@ int main(int argc, char **argv)
     if (!LOG)
         die("cannot open %s", logpath);
 
+    /* -f FD:r|w:PATH : descriptors the program finds open (for Stdio::RawFd).  Opened HERE, so that the
+     * tracer shares the open file description with whoever ends up using the descriptor: its file
+     * offset at the end tells whether the child really worked on THIS description (not on a re-opened
+     * file of the same name) */
+    int rawfds[8], nraw = 0;
+    for (int i = 0; i < nopen; i++) {
+        int want = atoi(opens[i]);
+        const char *c1 = strchr(opens[i], ':');
+        if (!c1 || !c1[1] || c1[2] != ':')
+            die("bad -f %s", opens[i]);
+        int fd = open(c1 + 3, c1[1] == 'w' ? (O_WRONLY | O_CREAT | O_TRUNC) : O_RDONLY, 0644);
+        if (fd < 0)
+            die("cannot open %s", c1 + 3);
+        if (fd != want) {
+            if (dup2(fd, want) < 0)
+                die("dup2 to %d failed", want);
+            close(fd);
+        }
+        rawfds[nraw++] = want;
+    }
     pid_t root = fork();
     if (root < 0)
         die("fork: %s", strerror(errno));
     if (root == 0) {
-        /* -f FD:r|w:PATH : descriptors the program finds open (for Stdio::RawFd) */
-        for (int i = 0; i < nopen; i++) {
-            int want = atoi(opens[i]);
-            const char *c1 = strchr(opens[i], ':');
-            if (!c1 || !c1[1] || c1[2] != ':')
-                _exit(125);
-            int fd = open(c1 + 3, c1[1] == 'w' ? (O_WRONLY | O_CREAT | O_APPEND) : O_RDONLY, 0644);
-            if (fd < 0)
-                _exit(125);
-            if (fd != want) {
-                if (dup2(fd, want) < 0)
-                    _exit(125);
-                close(fd);
-            }
-        }
         if (ptrace(PTRACE_TRACEME, 0, 0, 0) < 0)
             _exit(126);
         raise(SIGSTOP);
@@ -721,6 +727,8 @@ int main(int argc, char **argv)
         while (waitpid(-1, &st, __WALL) > 0 || errno == EINTR)
             ;
     }
+    for (int i = 0; i < nraw; i++)
+        fprintf(LOG, "{\"ev\":\"rawpos\",\"fd\":%d,\"pos\":%lld}\n", rawfds[i], (long long)lseek(rawfds[i], 0, SEEK_CUR));
     fprintf(LOG, "{\"ev\":\"end\",\"root_status\":%d,\"root_exited\":%s,\"timeout\":%s,\"inj_fired\":%s,\"alive_at_root_exit\":[%s]}\n",
             root_status, root_gone ? "true" : "false", to ? "true" : "false", INJ.fired ? "true" : "false", alive_at_root_exit);
     fclose(LOG);
